@@ -26,6 +26,7 @@ type Job struct {
 	Deadline  int64  `json:"deadline_unix_nano,omitempty"`
 	RaceRuns  int    `json:"race_runs,omitempty"`
 	NoPolling bool   `json:"no_polling,omitempty"`
+	Deviation bool   `json:"deviation_bounding,omitempty"`
 	Choices   []int  `json:"choices,omitempty"` // replay
 
 	Distinct1 bool `json:"-"` // C46: every schedule of this configuration must give the same outcome
@@ -91,13 +92,13 @@ func Main(bodies map[string]BodyFunc) {
 	}
 	switch os.Args[1] {
 	case "explore":
-		x := &vsched.Explorer{Name: j.Name, Body: b, Reset: reset, Bounds: j.Bounds, Prune: j.Prune, EnvBudget: j.EnvBudget, Horizon: j.Horizon, NoPolling: j.NoPolling}
+		x := &vsched.Explorer{Name: j.Name, Body: b, Reset: reset, Bounds: j.Bounds, Prune: j.Prune, EnvBudget: j.EnvBudget, Horizon: j.Horizon, NoPolling: j.NoPolling, EveryDeviationCosts: j.Deviation}
 		if j.Deadline > 0 {
 			x.Deadline = time.Unix(0, j.Deadline)
 		}
 		json.NewEncoder(os.Stdout).Encode(x.Explore())
 	case "replay":
-		x := &vsched.Explorer{Name: j.Name, Body: b, Reset: reset, EnvBudget: j.EnvBudget, Horizon: j.Horizon, NoPolling: j.NoPolling}
+		x := &vsched.Explorer{Name: j.Name, Body: b, Reset: reset, EnvBudget: j.EnvBudget, Horizon: j.Horizon, NoPolling: j.NoPolling, EveryDeviationCosts: j.Deviation}
 		fails, outcome, trace := x.Replay(j.Choices)
 		json.NewEncoder(os.Stdout).Encode(map[string]any{"fails": fails, "outcome": outcome, "trace": trace})
 	case "race":
